@@ -534,8 +534,8 @@ func verifC28Put32(b []byte, off int, v uint32) {
 // test request >= 2 GiB are kept rare (they are the F-C28 witnesses: sizes < 8 underflow to ~4 GiB);
 // "medium" values (10..48 MiB) exercise the same missing check at ~10 ms a piece.
 func verifC28Value(r *verifutil.Rand, orig uint32, n int) uint32 {
-	switch k := r.Intn(100); {
-	case k < 3: // huge
+	switch k := r.Intn(200); {
+	case k < 2: // huge: 1% of the field values (the corpus holds one witness of each kind as well)
 		switch r.Intn(4) {
 		case 0:
 			return uint32(r.Intn(8)) // < 8: uint32 underflow of size-8
@@ -546,19 +546,19 @@ func verifC28Value(r *verifutil.Rand, orig uint32, n int) uint32 {
 		default:
 			return uint32(r.U64()) | 0x40000000
 		}
-	case k < 30: // medium
-		return uint32(10<<20 + r.Intn(38<<20))
-	case k < 40:
+	case k < 56: // medium: beyond the file, above the measurement slack
+		return uint32(9<<20 + r.Intn(7<<20))
+	case k < 76:
 		return uint32(8 + r.Intn(9))
-	case k < 52:
+	case k < 100:
 		return orig + uint32(r.Intn(9)) - 4
-	case k < 62:
+	case k < 120:
 		return uint32(n) + uint32(r.Intn(17)) - 8
-	case k < 72:
+	case k < 140:
 		return uint32(r.Intn(n + 1))
-	case k < 80:
+	case k < 156:
 		return orig * 2
-	case k < 88:
+	case k < 172:
 		return 1 << uint(r.Intn(17))
 	default:
 		return uint32(r.Intn(70000))
